@@ -1,9 +1,9 @@
 (* C10 — property theorems only.  Bodies live in Trig.v / Forward.v / Poly.v / History.v / Proofs.v.
    All statements are over Coq's real numbers (style R); the gap to the IEEE evaluation of the
    same formulas is measured per sampled case by kernel-checked interval certificates. *)
-From Coq Require Import Reals List Bool QArith Lra.
+From Coq Require Import Reals List Bool QArith Lra String.
 From EsVerif.Common Require Import Base.
-From EsVerif.C10 Require Import Gen Model Spec Trig Forward Poly History Proofs Source Inverse SkySame.
+From EsVerif.C10 Require Import Gen Model Spec Trig Forward Poly History Proofs Source Inverse SkySame Lonpole Root History2 Complete Construct TwoSided Jac.
 Import ListNotations.
 Local Open Scope R_scope.
 
@@ -274,6 +274,154 @@ Theorem C10_rootfinder_is_source :
      src_findxy_one (sky2image_nodistort w) fsolve (lonlatdiff w) lon lat xtol).
 Proof. split; [exact lonlatdiff_is_source|exact findxy_one_is_source]. Qed.
 
+(* ---------------------------------------------------------------------------------------- *)
+(* proof-deepening round                                                                      *)
+(* ---------------------------------------------------------------------------------------- *)
+(* LONPOLE other than 180 (theta_0 = 90, the TAN case): the forward chain is the paper's Euler rotation
+   (alpha_p, delta_p, phi_p) = (CRVAL1, CRVAL2, LONPOLE) of the TAN native direction of the convention's intermediate
+   coordinates -- for EVERY LONPOLE; no hypothesis on LONPOLE is left. *)
+Theorem C10_forward_matches_fits_any_lonpole : forall h x y, sip_ok h ->
+  let ll := image2sky (mk_wcs h) x y true in
+  unitvec (fst ll) (snd ll) = fits_pix2sky_vec_lp h x y.
+Proof. exact forward_matches_fits_any_longpole. Qed.
+
+Theorem C10_lonpole_180_is_gnomonic : forall h x y, h_longpole h = 180 ->
+  fits_pix2sky_vec_lp h x y = fits_pix2sky_vec h x y.
+Proof. exact lonpole_180_is_gnomonic. Qed.
+
+Theorem C10_crpix_maps_to_crval_any_lonpole : forall h, sip_ok h ->
+  fits_intermediate h (h_crpix1 h) (h_crpix2 h) = (0, 0) ->
+  let ll := image2sky (mk_wcs h) (h_crpix1 h) (h_crpix2 h) true in
+  unitvec (fst ll) (snd ll) = unitvec (h_crval1 h) (h_crval2 h).
+Proof. exact crpix_maps_to_crval_any_longpole. Qed.
+
+(* Root finding: sky2image(find=True) on a distorted header returns fsolve applied to the residual of _lonlatdiff from
+   the undistorted start value; a zero of that residual has the intermediate coordinates and the sky position of the
+   pixel the sky position came from, and is that pixel wherever pixel -> intermediate coordinates is injective.  The
+   oracle fsolve is thereby reduced to "returns a zero of the residual". *)
+Theorem C10_find_is_fsolve_of_residual : forall fit fsolve h s lon lat distort xtol,
+  has_dist (mk_wcs h) = true ->
+  let w := mk_wcs h in
+  snd (sky2image fit fsolve w s lon lat distort true xtol) =
+  fsolve (lonlatdiff w (sky2image_nodistort w lon lat)) (sky2image_nodistort w lon lat) xtol.
+Proof. exact find_is_fsolve_of_residual. Qed.
+
+Theorem C10_root_has_same_intermediate : forall h px py x y,
+  cd_det h <> 0 ->
+  pix2inter (mk_wcs h) px py true <> (0, 0) -> pix2inter (mk_wcs h) x y true <> (0, 0) ->
+  let w := mk_wcs h in
+  let ll := image2sky w px py true in
+  let target := sky2image_nodistort w (fst ll) (snd ll) in
+  lonlatdiff w target (x, y) = (0, 0) ->
+  pix2inter w x y true = pix2inter w px py true /\ image2sky w x y true = image2sky w px py true.
+Proof. exact root_has_same_intermediate. Qed.
+
+Theorem C10_find_returns_the_pixel : forall fit fsolve h s px py distort xtol,
+  has_dist (mk_wcs h) = true -> cd_det h <> 0 ->
+  let w := mk_wcs h in
+  let ll := image2sky w px py true in
+  let r := snd (sky2image fit fsolve w s (fst ll) (snd ll) distort true xtol) in
+  let target := sky2image_nodistort w (fst ll) (snd ll) in
+  pix2inter w px py true <> (0, 0) -> pix2inter w (fst r) (snd r) true <> (0, 0) ->
+  lonlatdiff w target r = (0, 0) ->
+  image2sky w (fst r) (snd r) true = ll /\
+  ((forall q, pix2inter w (fst q) (snd q) true = pix2inter w px py true -> q = (px, py)) -> r = (px, py)).
+Proof. exact find_returns_the_pixel. Qed.
+
+(* History with the explicit call InvertDistortion() as an operation: outputs (the returned rms included) do not depend
+   on the history; frame conditions: which parts of the object's state each operation leaves untouched. *)
+Theorem C10_xhistory_independent : forall fit fsolve rms w h1 h2 o,
+  xlast_out fit fsolve rms w h1 o = xlast_out fit fsolve rms w h2 o.
+Proof. exact xhistory_independent. Qed.
+
+Theorem C10_xhistory_vs_fresh : forall fit fsolve rms w h o,
+  xlast_out fit fsolve rms w h o = snd (xstep fit fsolve rms w (init_state w) o).
+Proof. exact xhistory_vs_fresh. Qed.
+
+Theorem C10_frame_conditions : forall fit fsolve rms w s,
+  (forall x y d stp, fst (xstep fit fsolve rms w s (XCore (OpImage2sky x y d))) = s /\
+                     fst (xstep fit fsolve rms w s (XCore (OpJacobian x y d stp))) = s)
+  /\ (forall lon lat d f xtol, (d = false /\ f = false) \/ has_dist w = false ->
+        fst (xstep fit fsolve rms w s (XCore (OpSky2image lon lat d f xtol))) = s)
+  /\ (forall lon lat d xtol, has_dist w = true ->
+        let s' := fst (xstep fit fsolve rms w s (XCore (OpSky2image lon lat d true xtol))) in
+        s_inv_computed s' = s_inv_computed s /\ s_ap s' = s_ap s /\ s_bp s' = s_bp s)
+  /\ (forall lon lat d xtol,
+        let s' := fst (xstep fit fsolve rms w s (XCore (OpSky2image lon lat d false xtol))) in
+        s_lonlat_answer s' = s_lonlat_answer s /\ s_xyguess s' = s_xyguess s /\ s_xy_answer s' = s_xy_answer s)
+  /\ (let s' := fst (xstep fit fsolve rms w s XInvert) in
+      s_lonlat_answer s' = s_lonlat_answer s /\ s_xyguess s' = s_xyguess s /\ s_xy_answer s' = s_xy_answer s).
+Proof.
+  intros. split; [apply forward_ops_frame|]. split; [apply sky2image_plain_frame|].
+  split; [apply sky2image_find_frame|]. split; [apply sky2image_direct_frame|apply invert_frame].
+Qed.
+
+(* The boolean checkers decide their properties (completeness; soundness is C10_checkers_sound / C10_same_checkers_sound). *)
+Theorem C10_checkers_complete :
+  (forall lon lat, (0 <= lon /\ lon < 360 /\ -90 <= lat /\ lat <= 90)%Q -> range_check lon lat = true)
+  /\ (forall x y xb yb tol, (0 <= tol /\ qdist2 x y xb yb < tol * tol)%Q -> px_close_check x y xb yb tol = true)
+  /\ (forall a b, Forall2 Qeq a b -> qlist_eqb a b = true)
+  /\ (forall a b tol, Forall2 (fun x y => (Qabs.Qabs (x - y) <= tol)%Q) a b -> qlist_close_abs a b tol = true)
+  /\ (forall a b c d ia ib ic id tol,
+        (Qabs.Qabs (ia * a + ib * c - 1) <= tol /\ Qabs.Qabs (ia * b + ib * d) <= tol /\
+         Qabs.Qabs (ic * a + id * c) <= tol /\ Qabs.Qabs (ic * b + id * d - 1) <= tol)%Q ->
+        cdinv_check a b c d ia ib ic id tol = true)
+  /\ (forall lon lat lon' lat' tol,
+        (Qabs.Qabs (lat - lat') <= tol /\ lon_wrap_abs (lon - lon') * lon_weight lat <= tol)%Q ->
+        sky_same_check lon lat lon' lat' tol = true).
+Proof.
+  split; [exact range_check_complete|]. split; [exact px_close_check_complete|]. split; [exact qlist_eqb_complete|].
+  split; [exact qlist_close_abs_complete|]. split; [exact cdinv_check_complete|exact sky_same_check_complete].
+Qed.
+
+(* The constructor: exactly which headers WCS(header) accepts (required keys present; projection among the regenerated
+   _allowed_projections; CUNIT1 absent or 'deg'; CD keys complete and the matrix regular, or no CD matrix at all; A_ORDER
+   and B_ORDER for the SIP family of the regenerated _ap table), that a rejection is a KeyError or a ValueError, that a
+   missing required key is reported before any value is judged, and an unsupported projection as ValueError. *)
+Theorem C10_constructor_accepts_iff : forall q,
+  construct_check q = Ok tt <-> keys_ok q && cd_keys_ok q && values_ok q = true.
+Proof. exact construct_accepts_iff. Qed.
+
+Theorem C10_constructor_error_classes :
+  (forall q, construct_check q = Ok tt \/ construct_check q = Err EKey \/ construct_check q = Err EValue)
+  /\ (forall q, keys_ok q = false -> construct_check q = Err EKey)
+  /\ (forall q, keys_ok q = true -> str_in (q_projection q) allowed_projections = false -> construct_check q = Err EValue).
+Proof. split; [exact construct_error_class|]. split; [exact construct_keyerror_iff_keys|exact construct_bad_projection]. Qed.
+
+(* The tangent-plane inverse is two-sided: image2sky(distort=False) o sky2image(find=False, distort=False) is the identity
+   on directions for every sky position whose native latitude is strictly between 0 and 90 degrees (the visible
+   hemisphere without the reference point); every image2sph output away from the reference point is such a position. *)
+Theorem C10_tan_forward_of_inverse : forall h lon lat, cd_det h <> 0 ->
+  let w := mk_wcs h in
+  0 < snd (Rotate w lon lat false) * d2r < PI / 2 ->
+  let xy := sky2image_nodistort w lon lat in
+  let ll := image2sky w (fst xy) (snd xy) false in
+  unitvec (fst ll) (snd ll) = unitvec lon lat.
+Proof. exact tan_forward_of_inverse. Qed.
+
+Theorem C10_native_latitude_of_image2sph : forall h x y, (x, y) <> (0, 0) ->
+  let w := mk_wcs h in
+  let ll := image2sph w x y in
+  0 < snd (Rotate w (fst ll) (snd ll) false) * d2r < PI / 2.
+Proof. intros h x y H. exact (native_latitude_of_image2sph (mk_wcs h) x y (mk_wcs_orthogonal h) H). Qed.
+
+(* get_jacobian does not see the RA = 0 seam: for true longitude differences in (-180, 180) wrap_ra_diff returns the
+   difference whether or not one of the two longitudes was folded by 360, hence the jacobian computed from folded
+   longitudes equals the one computed from unfolded longitudes. *)
+Theorem C10_wrap_undoes_seam : forall d, -180 < d < 180 ->
+  wrap_ra_diff d = d /\ wrap_ra_diff (d + 360) = d /\ wrap_ra_diff (d - 360) = d.
+Proof. exact wrap_undoes_seam. Qed.
+
+Theorem C10_jacobian_seam_invariant : forall c p0 m0 zp zm step k1 k2 k3 k4,
+  -180 < fst p0 - fst m0 < 180 -> -180 < fst zp - fst zm < 180 ->
+  (k1 - k2 = 0 \/ k1 - k2 = 360 \/ k1 - k2 = -360) -> (k3 - k4 = 0 \/ k3 - k4 = 360 \/ k3 - k4 = -360) ->
+  jac_of c (fst p0 + k1, snd p0) (fst m0 + k2, snd m0) (fst zp + k3, snd zp) (fst zm + k4, snd zm) step =
+  jac_of c p0 m0 zp zm step.
+Proof. exact jacobian_seam_invariant. Qed.
+
+Example C10_seam_example : wrap_ra_diff (359 - 1) = -2 /\ wrap_ra_diff (1 - 359) = 2.
+Proof. exact seam_example. Qed.
+
 (* Non-vacuity: concrete distorted headers meet the hypotheses used above. *)
 Definition ex_header (p : proj) : header :=
   {| h_proj := p; h_crpix1 := 100; h_crpix2 := 200; h_crval1 := 359; h_crval2 := 89;
@@ -306,3 +454,34 @@ Proof.
   rewrite (crpix_intermediate_tpv (ex_header PTpv)) by (intro C; discriminate C).
   split; reflexivity.
 Qed.
+
+(* Non-vacuity of the proof-deepening theorems: a SIP header with LONPOLE = 90 meets sip_ok; the root hypothesis is met
+   by the pixel itself at a point with non-zero intermediate coordinates of a distorted header. *)
+Example C10_nonvacuous_deepening :
+  sip_ok (with_longpole (ex_header PSip) 90) /\ h_longpole (with_longpole (ex_header PSip) 90) = 90
+  /\ has_dist (mk_wcs (ex_header PTpv)) = true /\ cd_det (ex_header PTpv) <> 0
+  /\ pix2inter (mk_wcs (ex_header PTpv)) 100 200 true <> (0, 0)
+  /\ (let w := mk_wcs (ex_header PTpv) in
+      let ll := image2sky w 100 200 true in
+      lonlatdiff w (sky2image_nodistort w (fst ll) (snd ll)) (100, 200) = (0, 0)).
+Proof.
+  destruct C10_nonvacuous as (S1 & S2 & D1 & _ & Hdet & _ & _ & I1 & I2).
+  split; [exact (proj2 S2)|]. split; [reflexivity|]. split; [exact D1|]. split; [exact Hdet|].
+  split; [|apply residual_zero_at_the_pixel].
+  rewrite (pix2inter_matches_fits (ex_header PTpv) 100 200 S1). intro C.
+  rewrite C in I2. cbn [snd] in I2. lra.
+Qed.
+
+(* Non-vacuity of the constructor theorems: an accepted SIP header, a KeyError and a ValueError instance. *)
+Definition ex_raw (proj : String.string) (crpix1 : bool) : raw :=
+  {| q_znaxis1 := false; q_znaxis2 := false; q_naxis1 := true; q_naxis2 := true;
+     q_crpix1 := crpix1; q_crpix2 := true; q_crval1 := true; q_crval2 := true; q_ctype1 := true; q_ctype2 := true;
+     q_projection := proj; q_cunit1 := Some "deg"%string;
+     q_cd11 := Some (1 # 10000)%Q; q_cd12 := Some 0%Q; q_cd21 := Some 0%Q; q_cd22 := Some (1 # 10000)%Q;
+     q_a_order := true; q_b_order := true |}.
+Example C10_constructor_nonvacuous :
+  construct_check (ex_raw "-TAN-SIP" true) = Ok tt
+  /\ construct_check (ex_raw "-TAN-SIP" false) = Err EKey
+  /\ construct_check (ex_raw "-SIN" true) = Err EValue
+  /\ is_sip_projection "-TAN-SIP" = true /\ is_sip_projection "-TPV" = false.
+Proof. repeat split; vm_compute; reflexivity. Qed.
